@@ -115,6 +115,24 @@ func (eng *Engine) Verify(fn *ssa.Function, spec *FuncSpec, tags map[string]bool
 	f.params = args
 	h0 := &Heap{m: map[string]string{}}
 	e.preHeap = h0
+	if spec != nil && spec.Handler != "" {
+		// a route handler starts a request: the per-request ghost context is empty (zero values)
+		for path := range eng.ld.pkgSpecs {
+			sp := eng.ld.ssaPkg(path)
+			if sp == nil {
+				continue
+			}
+			for name, m := range sp.Members {
+				g, ok := m.(*ssa.Global)
+				if !ok || !eng.ghostVars["G|"+path+"."+name] {
+					continue
+				}
+				comp := e.globalComp(g)
+				h0.m[comp] = e.zero(g.Type().(*types.Pointer).Elem())
+			}
+		}
+		eng.assumes["ghost request context is empty when a route handler starts ("+res.Func+")"] = true
+	}
 	var reqs []string
 	if spec != nil {
 		for _, c := range spec.Clauses {
